@@ -207,7 +207,7 @@ Theorem uncommitted_changes_nothing_committed a o k :
 Proof.
   intros Ho. destruct o as [l|h k0 v|h k0|h k0|h|h|h| | |]; cbn [astep]; try (destruct Ho; fail).
   - reflexivity.
-  - destruct (N.eqb k0 0); [reflexivity|]. destruct (areader a h); [|reflexivity]. cbn [fst].
+  - destruct (areader a h); [|reflexivity]. destruct (N.eqb k0 0); [reflexivity|]. cbn [fst].
     rewrite awrite_vers. destruct (N.eqb_spec h 0); [contradiction|].
     destruct (N.eqb_spec k k0) as [->|]; [|reflexivity].
     unfold committed_val. rewrite filter_committed_snoc_uncommitted by assumption. reflexivity.
